@@ -154,7 +154,11 @@ def run_property(modname, tier, seed, replay=None, jobs=None):
     for v in mod.VARIANTS:
         build.ensure(v)
     if hasattr(mod, "prepare"):
-        mod.prepare(tier)
+        import inspect
+        if len(inspect.signature(mod.prepare).parameters) >= 2:
+            mod.prepare(tier, seed)
+        else:
+            mod.prepare(tier)
     ctx = Ctx(tier, seed)
     if hasattr(mod, "setup"):
         mod.setup(ctx)
@@ -320,12 +324,24 @@ def run_property(modname, tier, seed, replay=None, jobs=None):
            "generated_cases": generated, "replayed_files": replayed, "budget_exhausted": budget_exhausted,
            "harness_errors": errors[:3], "jobs": jobs}
     if hasattr(mod, "extra_coverage"):
-        cov.update(mod.extra_coverage())
+        ex = mod.extra_coverage()
+        cov["evaluations"] += ex.pop("add_evaluations", 0)
+        cov["distinct_nontrivial"] += ex.pop("add_nontrivial", 0)
+        for smp in ex.pop("add_samples", []):
+            if len(cov["samples"]) < 8:
+                cov["samples"].append(smp)
+        cov.update(ex)
+    if hasattr(mod, "extra_violations"):
+        violations += mod.extra_violations()
+    if hasattr(mod, "extra_known_lines"):
+        for l in mod.extra_known_lines():
+            if l not in known_lines:
+                known_lines.append(l)
     write_evidence(mod, tier, seed, time.time() - t0, cov, len(violations))
     for l in known_lines:
         print(l)
     print("%s tier=%s seed=%d evaluations=%d nontrivial=%d inconclusive=%d excluded_known=%d wall=%.1fs" % (
-        pid, tier, seed, evaluations, len(nt), inconclusive, excluded, time.time() - t0))
+        pid, tier, seed, cov["evaluations"], cov["distinct_nontrivial"], inconclusive, excluded, time.time() - t0))
     print("classes: " + json.dumps(dict(sorted(classes.items()))))
     if errors:
         print("HARNESS-ERROR (not a violation):\n" + errors[0])
